@@ -37,6 +37,9 @@ inductive Op where
   | insert (id : ItemId) (vec : VecRef) (md : Meta) (level : Nat)
   | remove (id : ItemId) (pick : List ItemId → Option ItemId)
   | reload
+  /-- the snapshot of an *empty* index (no bytes) loaded into this one: a replica that is handed the
+  snapshot of a partition emptied meanwhile -/
+  | loadEmpty
 
 def Op.ok : Op → Prop
   | .remove _ pick => PickOK pick
@@ -53,6 +56,7 @@ def stepOp (s : Index) : Op → Index
     | .ok s' => s'
     | .error _ => s
   | .reload => s.reload
+  | .loadEmpty => Index.empty
 
 def run (s : Index) : List Op → Index
   | [] => s
@@ -100,6 +104,7 @@ theorem good_step (s : Index) (op : Op) (hop : op.ok) (h : Good s) :
     | ok s' => exact inv_remove (dist := dist) cfg s id pick hop h.1 h.2 s' hr
     | error e => exact h
   | reload => exact good_reload s h
+  | loadEmpty => exact good_empty
 
 /-- **Invariant, every reachable state**: after any history the index is well formed. -/
 theorem good_run (s : Index) (ops : List Op) (hops : ∀ op ∈ ops, op.ok) (h : Good s) :
